@@ -1,10 +1,88 @@
 import Rare.Base.Proto
 import Rare.Model.C01
+import Rare.Model.C01Classify
 import Rare.Model.PipelineTrace
+import Rare.Drv.Expr
 namespace Rare.Drv.C01
 open Rare Rare.C01 Rare.Proto Rare.Pipeline
 
 def renderLine (l : Line) : String := s!"{l.src}:{l.num}:{Hex.enc l.text}:{Hex.enc (harnessGroup1 l.text)}"
+
+/-! ### The classification configuration of a case: matcher, ignore expressions, extract expression
+
+`<matcher>` = `h` (harness matcher, no named groups) | `n` (harness matcher with group 2 and the name table
+`val`/`key`/`all`); `<ignores>` = `N` (nil `IgnoreSet`) | `E` (an `ExpressionIgnoreSet` without expressions) |
+hex templates joined by `+`; `<extract>` = hex template.  The templates are the RAW bytes handed to the real
+`extractor.NewIgnoreExpressions` / `extractor.Config.Extract`; the model compiles them with the shared
+expression model (`Rare.Expr.compile` over `Drv.Expr.registry`, optimiser on as `funclib.NewKeyBuilder`). -/
+
+structure ClsSpec where
+  matcher : String := "h"
+  ignores : Option (List Bytes) := some [ascii "{1}"]
+  extract : Bytes := ascii "{0}"
+
+def parseIgnores (s : String) : Option (Option (List Bytes)) :=
+  if s = "N" then some none
+  else if s = "E" then some (some [])
+  else ((s.splitOn "+").mapM Hex.dec).map some
+
+def parseClsSpec (m ig ex : String) : Option ClsSpec := do
+  let ig ← parseIgnores ig
+  let ex ← Hex.dec ex
+  if m = "h" ∨ m = "n" then pure { matcher := m, ignores := ig, extract := ex } else none
+
+/-- source names: `OpenFilesToChan` reports the file name it was given (the harness passes `f0000`, … relative
+    to the case's directory), `OpenReaderToChan` the name it was given (`s0`). -/
+def sourceName (files : Bool) (i : Nat) : Bytes :=
+  if files then
+    let d := toString i
+    ascii ("f" ++ String.ofList (List.replicate (4 - d.length) '0') ++ d)
+  else ascii ("s" ++ toString i)
+
+inductive Built
+  | ok (e : Extractor)
+  | compileError            -- the real constructor returns an error
+  | fail (msg : String)     -- panic at compile time / outside the model
+
+def buildExtractor (spec : ClsSpec) (files : Bool) : Built :=
+  let reg := Drv.Expr.registry
+  let ig : Except String (Option (Option (List Expr.Stage))) :=
+    match spec.ignores with
+    | none => .ok (some none)
+    | some ts =>
+      match compileAll reg ts with
+      | .error m => .error m
+      | .ok none => .ok none
+      | .ok (some ss) => .ok (some (some ss))
+  match ig, compileTemplate reg spec.extract with
+  | .error m, _ => .fail m
+  | _, .error m => .fail m
+  | .ok none, _ => .compileError
+  | _, .ok none => .compileError
+  | .ok (some ig), .ok (some ex) =>
+    .ok { matcher := if spec.matcher = "n" then harnessIndicesN else harnessIndices,
+          names := if spec.matcher = "n" then harnessNamesN else [],
+          ignore := ig, extract := ex, sourceName := sourceName files }
+
+def failAns (m : String) : String := Drv.Expr.panicAns m
+
+def renderKeyed (e : Extractor) (l : Line) : String := s!"{l.src}:{l.num}:{Hex.enc l.text}:{Hex.enc (keyOf e l)}"
+
+/-- The reference outcome of the `pipe` op: sequential evaluation, every line classified with its own source
+    name and 1-based number. -/
+def pipeAnswer (spec : ClsSpec) (files keyed : Bool) (inputs : List Bytes) : String :=
+  match buildExtractor spec files with
+  | .compileError => "compile-error"
+  | .fail m => failAns m
+  | .ok e =>
+    let ls := allLines inputs
+    match firstPanic e ls with
+    | some m => failAns m
+    | none =>
+      let t := seqTotals (clsOf e) ls
+      let ms := seqMatches (clsOf e) ls
+      let body := if ms.isEmpty then "." else ",".intercalate (ms.map (if keyed then renderKeyed e else renderLine))
+      s!"ok read={t.read} matched={t.matched} ignored={t.ignored} inorder=1 matches={body}"
 
 /-! ### Trace cases (`ptrace <blob>`, blob = cfg/inputs/summary/trace; see harness/corr/c01trace.go) -/
 
@@ -31,7 +109,7 @@ def parseInputs (s : String) : Option (List Bytes) :=
   if s = "." then some [] else (s.splitOn "_").mapM Hex.dec
 
 /-- cfg = mode.batch.workers.readers.buffer.flushms.missing.procs.delay.script -/
-def parseCfg (s : String) (inputs : List Bytes) (agg : Bool) : Option PipelineTrace.Cfg :=
+def parseCfg (s : String) (inputs : List Bytes) (agg : Bool) (cls : Line → Cls := harnessCls) : Option PipelineTrace.Cfg :=
   match s.splitOn "." with
   | mode :: batch :: w :: r :: b :: flush :: _ => do
     let batch ← batch.toNat?
@@ -41,7 +119,7 @@ def parseCfg (s : String) (inputs : List Bytes) (agg : Bool) : Option PipelineTr
     let _ ← flush.toNat?
     -- a reader source always runs the timed batching loop (250ms, or the harness' short timeout)
     pure { files := mode = "f", batch := batch, W := w, R := if mode = "f" then r else 1, B := b, timed := mode ≠ "f",
-           inputs := inputs, agg := agg }
+           inputs := inputs, agg := agg, cls := cls }
   | _ => none
 
 def showEv (e : TraceOrder.Ev) : String :=
@@ -75,41 +153,60 @@ def pipeTrace (cfg : PipelineTrace.Cfg) (evs : List TraceOrder.Ev) (others : Lis
       let st := " ".intercalate (stuck.map fun p => s!"{p}:{showEv (TraceOrder.evAt tr p)}")
       { answer := s!"rejected after={deepest}/{tr.size} exhaustive={exhausted} frontier={st}" }
 
-/-- `pipe <inputs hexlist>`: the reference outcome (independent of batch/worker/reader/buffer settings,
-    chunking and schedule – that independence is the theorem).
+/-- the classification part of a trace blob (`matcher.ignores.extract`, absent = `h`, `{1}`, `{0}`) -/
+def blobExtractor (cfg : String) (clsPart : Option String) : Option Built :=
+  let files := cfg.startsWith "f."
+  match clsPart with
+  | none => some (buildExtractor {} files)
+  | some p =>
+    match p.splitOn "." with
+    | [m, ig, ex] => (parseClsSpec m ig ex).map fun spec => buildExtractor spec files
+    | _ => none
+
+/-- Trace case: `blob = cfg/inputs/summary/trace[/matcher.ignores.extract]`. -/
+def traceCase (blob : String) (k : PipelineTrace.Cfg → List TraceOrder.Ev → String) : String :=
+  match blob.splitOn "/" with
+  | cfg :: ins :: _ :: trace :: rest =>
+    if rest.length > 1 then "bad-args blob" else
+    match parseInputs ins with
+    | none => "bad-args inputs"
+    | some inputs =>
+      match blobExtractor cfg rest.head? with
+      | none => "bad-args cls"
+      | some .compileError => "compile-error"
+      | some (.fail m) => failAns m
+      | some (.ok e) =>
+        match firstPanic e (allLines inputs) with
+        | some m => failAns m
+        | none =>
+          match parseCfg cfg inputs false (clsOf e), parseTrace trace with
+          | some cfg, some evs => k cfg evs
+          | _, _ => "bad-args cfg/trace"
+  | _ => "bad-args blob"
+
+/-- `pipe <inputs hexlist> <mode> <batch> <workers> <readers> <buffer> <flushms> <script> <procs> <delay>
+    [<matcher> <ignores> <extract>]`: the reference outcome – sequential evaluation in which every line is
+    classified with its own source name and 1-based line number (independent of batch/worker/reader/buffer
+    settings, chunking and schedule – that independence is the theorem).
     `ptrace <blob>`: trace inclusion of a real run's event log. -/
 def handle : List String → String
-  | "pipe" :: ins :: _ =>
+  | "pipe" :: ins :: rest =>
     match decHexList ins with
     | some inputs =>
-      let ls := allLines inputs
-      let t := seqTotals harnessCls ls
-      let ms := seqMatches harnessCls ls
-      let body := if ms.isEmpty then "." else ",".intercalate (ms.map renderLine)
-      s!"ok read={t.read} matched={t.matched} ignored={t.ignored} inorder=1 matches={body}"
+      let files := rest.head? != some "reader"
+      match rest.drop 9 with
+      | [m, ig, ex] =>
+        match parseClsSpec m ig ex with
+        | some spec => pipeAnswer spec files true inputs
+        | none => "bad-args cls"
+      | [] => pipeAnswer {} files false inputs
+      | _ => "bad-args"
     | none => "bad-args"
-  | "ptrace" :: blob :: _ =>
-    match blob.splitOn "/" with
-    | [cfg, ins, _, trace] =>
-      match parseInputs ins with
-      | none => "bad-args inputs"
-      | some inputs =>
-        match parseCfg cfg inputs false, parseTrace trace with
-        | some cfg, some evs => (pipeTrace cfg evs).answer
-        | _, _ => "bad-args cfg/trace"
-    | _ => "bad-args blob"
+  | "ptrace" :: blob :: _ => traceCase blob fun cfg evs => (pipeTrace cfg evs).answer
   | op :: blob :: _ =>
     -- `pmut<k> <blob>`: a real log damaged by the harness in a way that no run can produce; must be rejected
     if op.startsWith "pmut" then
-      match blob.splitOn "/" with
-      | [cfg, ins, _, trace] =>
-        match parseInputs ins with
-        | none => "bad-args inputs"
-        | some inputs =>
-          match parseCfg cfg inputs false, parseTrace trace with
-          | some cfg, some evs => if (pipeTrace cfg evs).answer.startsWith "ok " then "ok accepted" else "rejected"
-          | _, _ => "bad-args cfg/trace"
-      | _ => "bad-args blob"
+      traceCase blob fun cfg evs => if (pipeTrace cfg evs).answer.startsWith "ok " then "ok accepted" else "rejected"
     else "bad-op"
   | _ => "bad-op"
 
